@@ -10,12 +10,13 @@ import (
 	"regexp"
 	"strings"
 
+	"github.com/JunNishimura/Goit/internal/object"
 	"github.com/JunNishimura/Goit/internal/sha"
 	"github.com/spf13/cobra"
 )
 
 var (
-	branchRegexp = regexp.MustCompile("refs/heads/.+")
+	branchRegexp = regexp.MustCompile("^refs/heads/[^/]+$")
 )
 
 // updateRefCmd represents the updateRef command
@@ -53,6 +54,15 @@ var updateRefCmd = &cobra.Command{
 		newHash, err := sha.ReadHash(hashString)
 		if err != nil {
 			return ErrInvalidHash
+		}
+
+		// a branch may only point to a commit
+		newObject, err := object.GetObject(client.RootGoitPath, newHash)
+		if err != nil {
+			return fmt.Errorf("fatal: cannot read object %s: %w", hashString, err)
+		}
+		if newObject.Type != object.CommitObject {
+			return fmt.Errorf("fatal: trying to write non-commit object %s to branch '%s'", hashString, args[0])
 		}
 
 		if err := client.Refs.UpdateBranchHash(client.RootGoitPath, branchName, newHash); err != nil {
